@@ -20,6 +20,7 @@ var hostileKinds = []string{
 	"garbage-lines",        // endless stream of CR-terminated lines that are no prompts
 	"flood-lines",          // the same at full speed in minimal lines: thousands of lines per read, the dialler is hardly ever inside a read
 	"flood-prompts",        // callsign prompts at full speed, answers never read
+	"prompt-never-reads",   // callsign prompts now and then, not one byte of the answers is ever read (the dialler's writes can block)
 	"prompt-then-silence",  // proper callsign prompt, reads the answer, never continues
 	"callsign-forever",     // answers every callsign with another callsign prompt
 	"password-no-cr-drip",  // callsign prompt, then "Password :" dripped byte-wise, never a CR
@@ -166,6 +167,18 @@ func (h *hostile) serve(c net.Conn) {
 				if ne, ok := err.(net.Error); ok && ne.Timeout() {
 					continue
 				}
+				return
+			}
+		}
+	case "prompt-never-reads":
+		if tc, ok := c.(*net.TCPConn); ok {
+			tc.SetReadBuffer(4096)
+		}
+		for {
+			if _, err := c.Write([]byte(promptCall)); err != nil {
+				return
+			}
+			if !h.sleep(20 * time.Millisecond) {
 				return
 			}
 		}
